@@ -162,6 +162,39 @@ def r1c(cx):
                      loc=pb_.loc(pb_.d))
 
 
+@RS.rule('C15.R1d', 'K-ORDER', 'the finished future is destroyed BEFORE the completed task withdraws its own wake: a destructor may wake '
+         'the task (a drop guard, a channel end signalling on drop), and a wake issued after the withdrawal - while the slot is still '
+         'borrowed - queues the completed task again')
+def r1d(cx):
+    F = cx.F
+    body = F.body(POLL)
+    cx.fn(body.fn)
+    purge = [(blk, t) for kind, desc, t, blk in _field_uses(body, STATE, 'wake_queue') if kind == 'call' and desc == VD + 'retain']
+    if not purge:
+        cx.site('Task::poll does not withdraw a wake (C15.R1c reports that)')
+        return
+    SLOT = re.compile(r'^core::option::Option<core::pin::Pin<alloc::boxed::Box<dyn core::future::future::Future')
+    moved_into = set()
+    for blk, j, st in body.stmts():
+        # `*slot = None`: the temporary holding the new value is moved into the slot (its own drop is a no-op)
+        if st['k'] == 'assign' and st['lhs'].get('p') and st['rv']['k'] == 'use' and 'mv' in st['rv']['o'] and not st['rv']['o']['mv'].get('p'):
+            moved_into.add(st['rv']['o']['mv']['l'])
+    drops = [(b, body.term(b)) for b in range(len(body.blocks)) if body.term(b)['k'] == 'drop' and SLOT.search(str(body.term(b).get('ty') or ''))
+             and not (not body.term(b)['pl'].get('p') and body.term(b)['pl']['l'] in moved_into)]
+    takes = [(b, t) for b, t in body.calls() if SLOT.search(str(body.locals[t['dest']['l']].get('ty') or ''))]
+    cx.require(drops or takes, 'Task::poll never destroys the finished future (anchor moved)')
+    after = set()
+    for pb, pt in purge:
+        after |= body.reachable(pb)
+    late = [(b, t) for b, t in drops if b in after]
+    cx.site('Task::poll: %d drop(s) of the future slot value, %d after the wake withdrawal' % (len(drops), len(late)))
+    for b, t in late:
+        cx.violation(POLL, 'finished-future-dropped-after-withdrawal', 'the finished future is kept alive past the withdrawal of the task\'s own '
+                     'wake and destroyed afterwards, while the slot is still borrowed: if its destructor wakes the task (drop guard, channel '
+                     'end that signals on drop), Task::wake sees the borrow, takes the task for "being polled" and queues it - the completed '
+                     'task is run and counted again', loc=body.loc(t))
+
+
 @RS.rule('C15.R1', 'K-WRITERS+K-GUARD', 'wake queue: push_back / pop_front / reads only, by the reviewed functions; wake pushes only if not already queued')
 def r1(cx):
     F = cx.F
